@@ -132,6 +132,17 @@ let () =
                | _ -> show_vres v)
           | _ -> failwith "step") (String.split_on_char ';' steps) in
         Printf.printf "val %d %d %s\n" k par (String.concat " " verdicts)
+    | ["wire"; shs; root; sibs] ->
+        (* UnitFromProto: lists are comma separated hex strings, "-" = empty list, "e" = empty byte string *)
+        let lst a = if a = "-" then [] else List.map (fun x -> if x = "e" then [] else bytes_of_hex x) (String.split_on_char ',' a) in
+        let show_l l = if l = [] then "-" else String.concat "," (List.map (fun x -> if x = [] then "e" else hex0 x) l) in
+        let w = { w_shards = lst shs; w_root = (if root = "e" then [] else bytes_of_hex root); w_siblings = lst sibs } in
+        let show = function
+          | WOk (sh, r, sb) -> "ok " ^ show_l sh ^ " " ^ (if r = [] then "e" else hex0 r) ^ " " ^ show_l sb
+          | WErr -> "err" | WPanic -> "panic" in
+        let r = from_proto w in
+        Printf.printf "wire %s | wf=%b | before-fix %s\n" (show r) (wire_wf r)
+          (match from_proto_before_fix w with WOk _ -> "ok" | WErr -> "err" | WPanic -> "panic")
     | ["sched"; np; lr; pr] ->
         let np = int_of_string np in
         let peers = List.init np (fun i -> n_of_int (i + 1)) in
